@@ -9,18 +9,20 @@
  */
 #include "sim.h"
 
+#include <string.h>
 #include <librfn/rotenc.h>
 
 enum { F_BOUNCE, F_REPEAT, F_MISSED, F_REVERSAL, F_RANDOM_STATE, F_PERIODIC };
 static const char *const fault_names[] = { "bounce", "repeat_sample", "missed_sample",
 					   "reversal", "random_state", "periodic_signal", NULL };
 enum { P_WRAP8_UP, P_WRAP8_DOWN, P_WRAP16_UP, P_WRAP16_DOWN, P_NEG, P_OFF_DETENT_READ,
-       P_LATCH, P_LONG_WALK, P_LONG_DWELL, P_LONG_OFF_DETENT };
+       P_LATCH, P_LONG_WALK, P_LONG_DWELL, P_LONG_OFF_DETENT, P_NOT_READ, P_SECOND_ENCODER };
 static const char *const probe_names[] = { "crossed_256_clicks_up", "crossed_256_clicks_down",
 					   "crossed_16384_clicks_up", "crossed_16384_clicks_down",
 					   "position_negative", "read_while_off_detent",
 					   "latched_at_detent", "walk_over_10000_samples",
-					   "same_state_over_250_samples", "over_700_samples_without_detent", NULL };
+					   "same_state_over_250_samples", "over_700_samples_without_detent",
+					   "sample_decoded_without_reading_the_counts", "second_encoder_polled_in_between", NULL };
 
 static const uint8_t gray[4] = { 0, 1, 3, 2 };	/* clockwise order */
 static const uint8_t gidx[4] = { 0, 1, 3, 2 };	/* state -> index  */
@@ -30,29 +32,34 @@ static int64_t fdiv4(int64_t p)
 	return p >= 0 ? p / 4 : -((-p + 3) / 4);
 }
 
-static rotenc_t *r;
-static int64_t mpos;		/* oracle: position from the state sequence */
-static int64_t latched;		/* oracle: floor(mpos/4) at the last detent */
-static uint8_t mstate;
-static bool jumped;		/* a two-bit jump has happened in this run  */
+/* one encoder and its oracle; a run may have two, fed in turn (they share nothing) */
+typedef struct {
+	rotenc_t *r;
+	int64_t mpos;		/* oracle: position from the state sequence */
+	int64_t latched;	/* oracle: floor(mpos/4) at the last detent */
+	uint8_t mstate;
+	bool jumped;		/* a two-bit jump has happened in this run  */
+	int id;
+} enc_t;
+static enc_t enc[2];
 static uint64_t nsamples;
 
-static void feed(uint8_t st, bool check)
+static void feed_enc(enc_t *e, uint8_t st, bool check)
 {
-	int d = (gidx[st] - gidx[mstate]) & 3;
-	int64_t before = fdiv4(mpos);
+	int d = (gidx[st] - gidx[e->mstate]) & 3;
+	int64_t before = fdiv4(e->mpos);
 	if (d == 1)
-		mpos++;
+		e->mpos++;
 	else if (d == 3)
-		mpos--;
+		e->mpos--;
 	else if (d == 2)
-		jumped = true;
-	mstate = st;
+		e->jumped = true;
+	e->mstate = st;
 	if (st == 0) {
-		latched = fdiv4(mpos);
+		e->latched = fdiv4(e->mpos);
 		sim_probe(P_LATCH);
 	}
-	int64_t after = fdiv4(mpos);
+	int64_t after = fdiv4(e->mpos);
 	if (before != after) {
 		if ((after & 255) == 0 && after > before)
 			sim_probe(P_WRAP8_UP);
@@ -63,43 +70,76 @@ static void feed(uint8_t st, bool check)
 		if ((before & 16383) == 0 && after < before)
 			sim_probe(P_WRAP16_DOWN);
 	}
-	if (mpos < 0)
+	if (e->mpos < 0)
 		sim_probe(P_NEG);
 
 	sim_budget(10000);
-	ONCE(2, rotenc_decode(ARG(r), ARG(st)));
+	ONCE(2, rotenc_decode(ARG(e->r), ARG(st)));
 	nsamples++;
 	sim_ops(1);
-	if (!check)
+	if (!check) {
+		sim_probe(P_NOT_READ);
 		return;
+	}
 
-	unsigned c8 = ONCE_V(1, rotenc_count(ARG(r)));
-	unsigned c14 = ONCE_V(1, rotenc_count14(ARG(r)));
-	sim_ev("s", st, c8, c14);
+	/* the two readings are taken in either order, and sometimes only one of them */
+	uint32_t how = sim_choose(4);
+	unsigned c8 = 0, c14 = 0;
+	if (how == 1)
+		c14 = ONCE_V(1, rotenc_count14(ARG(e->r)));
+	if (how != 3)
+		c8 = ONCE_V(1, rotenc_count(ARG(e->r)));
+	if (how != 1 && how != 2)
+		c14 = ONCE_V(1, rotenc_count14(ARG(e->r)));
+	bool have8 = how != 3, have14 = how != 2;
+	sim_ev("s", st + 4 * e->id, have8 ? (int)c8 : -1, have14 ? (int)c14 : -1);
 	if (st != 0)
 		sim_probe(P_OFF_DETENT_READ);
-	if (c8 != (unsigned)(latched & 255))
+	if (have8 && c8 != (unsigned)(e->latched & 255))
 		sim_fail(NULL, "COUNT8",
 			 "after sample %llu (state %u): rotenc_count=%u, latched position %lld (mod 256 = %lld)",
-			 (unsigned long long)nsamples, st, c8, (long long)latched,
-			 (long long)(latched & 255));
-	if (c14 != (unsigned)(latched & 16383))
+			 (unsigned long long)nsamples, st, c8, (long long)e->latched,
+			 (long long)(e->latched & 255));
+	if (have14 && c14 != (unsigned)(e->latched & 16383))
 		sim_fail(NULL, "COUNT14",
 			 "after sample %llu (state %u): rotenc_count14=%u, latched position %lld (mod 16384 = %lld), live quarter-steps %lld",
-			 (unsigned long long)nsamples, st, c14, (long long)latched,
-			 (long long)(latched & 16383), (long long)mpos);
-	if ((c14 & 255) != c8)
+			 (unsigned long long)nsamples, st, c14, (long long)e->latched,
+			 (long long)(e->latched & 16383), (long long)e->mpos);
+	if (have8 && have14 && (c14 & 255) != c8)
 		sim_fail(NULL, "DISAGREE", "count14=%u and count=%u differ in low 8 bits", c14, c8);
-	if (!jumped) {
-		int diff = (int)((c14 - (unsigned)(fdiv4(mpos) & 16383)) & 16383);
+	if (have14 && !e->jumped) {
+		int diff = (int)((c14 - (unsigned)(fdiv4(e->mpos) & 16383)) & 16383);
 		if (diff > 8192)
 			diff -= 16384;
 		if (diff < -1 || diff > 1)
 			sim_fail(NULL, "NEAR",
 				 "count14=%u but true position is %lld clicks (no invalid jump so far)",
-				 c14, (long long)fdiv4(mpos));
+				 c14, (long long)fdiv4(e->mpos));
 	}
 	sim_check_sanitizer();
+}
+
+static uint32_t read_div;	/* readings are taken after one sample in read_div (1 = after every one) */
+static bool two;		/* a second, unrelated encoder is polled in between */
+static int64_t shaft2;
+
+static void feed(uint8_t st, bool check)
+{
+	if (check && read_div > 1)
+		check = sim_choose(read_div) == 0;
+	feed_enc(&enc[0], st, check);
+	if (two && sim_choose(2)) {
+		/* the other knob: its own walk, bounce and garbage */
+		uint32_t v = sim_choose(8);
+		if (v < 5)
+			shaft2 += 1;
+		else if (v == 5)
+			shaft2 -= 1;
+		else if (v == 6)
+			shaft2 += 2;
+		sim_probe(P_SECOND_ENCODER);
+		feed_enc(&enc[1], gray[shaft2 & 3], sim_choose(2));
+	}
 }
 
 static void run(void)
@@ -107,12 +147,14 @@ static void run(void)
 	static const uint32_t starts[] = { 0, 0, 0, 3, 1019, 1021, 1023, 1024, 1027, 2047,
 					   32767, 32768, 65531, 65533, 65535, 65536, 65539,
 					   131071, 66559 };
-	r = sim_alloc(sizeof(*r));	/* exact-size heap block, zero = ROTENC_VAR_INIT */
-	mpos = 0;
-	latched = 0;
-	mstate = 0;
-	jumped = false;
+	memset(enc, 0, sizeof(enc));
+	enc[0].r = sim_alloc(sizeof(rotenc_t));	/* exact-size heap block, zero = ROTENC_VAR_INIT */
+	enc[1].r = sim_alloc(sizeof(rotenc_t));
+	enc[1].id = 1;
 	nsamples = 0;
+	shaft2 = 0;
+	read_div = 1;
+	two = false;
 
 	/* header: scenario shape */
 	uint32_t mode = sim_choose(4);	/* 0,1,2 = shaft; 3 = random states */
@@ -131,6 +173,9 @@ static void run(void)
 	uint32_t w_rand = sim_choose(4) == 1 ? sim_choose(6) : 0;
 	uint32_t w_periodic = sim_choose(3) == 1 ? 1 + sim_choose(3) : 0;	/* per 256 samples */
 	sim_ev("hdr", mode, start, dir);
+	static const uint32_t divs[] = { 1, 1, 2, 8 };
+	uint32_t rd = divs[sim_choose(4)];
+	bool tw = sim_choose(3) == 0;
 
 	/* drive quickly to the start position through the public API (checked at the end) */
 	int64_t shaft = 0;
@@ -139,6 +184,8 @@ static void run(void)
 		feed(gray[shaft & 3], i + 1 == start);
 	}
 
+	read_div = rd;	/* (the drive to the start position above is a single encoder read once at its end) */
+	two = tw;
 	for (uint32_t i = 0; i < len && !sim_tape_done(); i++) {
 		sim_seg();
 		uint8_t st;
@@ -158,7 +205,7 @@ static void run(void)
 			for (uint32_t j = 0; j < n; j++)
 				for (uint32_t k = 0; k < plen; k++)
 					feed(pat[k], true);
-			shaft = (shaft & ~3ll) | gidx[mstate];
+			shaft = (shaft & ~3ll) | gidx[enc[0].mstate];
 			continue;
 		}
 		if (mode == 3) {
@@ -200,7 +247,7 @@ const sim_harness_t sim_harness = {
 	.min_ops = 20,
 	.rule = "one case = one seeded walk of a simulated shaft (start position next to a wrap "
 		"point, momentum, per-run fault rates for bounce/repeat/missed-sample/reversal/"
-		"garbage, periodic patterns of 1-4 states repeated 2-2000 times) decoded sample by sample; non-trivial = at least 20 samples and at "
+		"garbage, periodic patterns of 1-4 states repeated 2-2000 times) decoded sample by sample, the counts read after every sample or only now and then and in either order, sometimes with a second unrelated encoder polled in between; non-trivial = at least 20 samples and at "
 		"least one line fault or wrap/latch probe fired; distinct = distinct hash of the "
 		"(state, count, count14) event sequence",
 	.real = "librfn/rotenc.c, rotenc.h (rotenc_decode, rotenc_count, rotenc_count14)",
